@@ -107,8 +107,8 @@ Section ExecReportP.
     unfold check_message. destruct (memN (m_seq m) (c_exec cd)) eqn:Ex; [discriminate|].
     destruct (nth_error (c_td cd) i) as [td|] eqn:Et; [|discriminate].
     destruct (td_ready td) eqn:Er; cbn [negb]; [|discriminate].
-    destruct (check_nonce nonces exp cd m) as [e okn]. destruct okn; cbn [negb]; [|discriminate].
     destruct (memN (m_id m) (c_costly cd)) eqn:Ec; [discriminate|].
+    destruct (check_nonce nonces exp cd m) as [e okn]. destruct okn; cbn [negb]; [|discriminate].
     intros _. exists td. repeat split; assumption.
   Qed.
 
@@ -519,7 +519,7 @@ Section ExecReportP.
     Lemma check_message_eff exp i m exp1 rdy :
       check_message nonces exp cd i m = Ok (exp1, rdy) ->
       (rdy = true -> m_nonce m = 0%N \/ advances nonces exp cd i m = true) /\
-      (advances nonces exp cd i m = true -> m_nonce m <> 0%N) /\
+      (advances nonces exp cd i m = true -> m_nonce m <> 0%N /\ rdy = true) /\
       (if advances nonces exp cd i m && key m
        then exists e, eff c s exp = Some e /\ m_nonce m = e /\ eff c s exp1 = Some (add64 e 1)
        else eff c s exp1 = eff c s exp).
@@ -530,18 +530,20 @@ Section ExecReportP.
       destruct (nth_error (c_td cd) i) as [td|]; [|discriminate].
       destruct (td_ready td); cbn [negb andb].
       2:{ intros H; inversion H; subst. repeat split; try discriminate. }
+      destruct (memN (m_id m) (c_costly cd)); cbn [negb andb].
+      { intros H; inversion H; subst. repeat split; try discriminate. }
       pose proof (check_nonce_eff exp m) as Hn.
       destruct (check_nonce nonces exp cd m) as [e1 okn]. cbn [snd].
-      assert (Hcore : exp1 = e1 -> (okn = false -> rdy = false) ->
+      assert (Hcore : exp1 = e1 -> rdy = okn ->
         (rdy = true -> m_nonce m = 0%N \/ negb (N.eqb (m_nonce m) 0) && okn = true) /\
-        (negb (N.eqb (m_nonce m) 0) && okn = true -> m_nonce m <> 0%N) /\
+        (negb (N.eqb (m_nonce m) 0) && okn = true -> m_nonce m <> 0%N /\ rdy = true) /\
         (if negb (N.eqb (m_nonce m) 0) && okn && key m
          then exists e, eff c s exp = Some e /\ m_nonce m = e /\ eff c s exp1 = Some (add64 e 1)
          else eff c s exp1 = eff c s exp)).
       { intros -> Hrdy. split; [|split].
-        - intros ->. destruct okn; [|specialize (Hrdy eq_refl); discriminate].
+        - intros ->. subst okn.
           destruct (N.eqb_spec (m_nonce m) 0); [now left|now right].
-        - destruct (N.eqb_spec (m_nonce m) 0); [discriminate|auto].
+        - destruct (N.eqb_spec (m_nonce m) 0); [discriminate|]. cbn [negb andb]. intros ->. auto.
         - destruct (key m) eqn:Ek.
           + assert (Hnz : N.eqb (m_nonce m) 0 = false).
             { unfold key in Ek. destruct (N.eqb (m_nonce m) 0); [discriminate|reflexivity]. }
@@ -552,9 +554,7 @@ Section ExecReportP.
               -- exact H2.
             * destruct Hn as [H1 H2]. subst okn. exact H2.
           + rewrite andb_false_r. exact Hn. }
-      destruct okn; cbn [negb].
-      - destruct (memN (m_id m) (c_costly cd)); intros H; inversion H; subst; apply Hcore; auto; discriminate.
-      - intros H; inversion H; subst. apply Hcore; auto.
+      destruct okn; cbn [negb]; intros H; inversion H; subst; apply Hcore; auto.
     Qed.
 
     (* the checkMessage pass over a suffix of the messages *)
@@ -565,6 +565,7 @@ Section ExecReportP.
       asc A /\ (forall i, In i A -> length pre <= i) /\
       (forall i, In i ready -> In i A \/ exists m, nth_error (c_msgs cd) i = Some m /\ m_nonce m = 0%N) /\
       (forall i, In i A -> exists m, nth_error (c_msgs cd) i = Some m /\ m_nonce m <> 0%N) /\
+      (forall i, In i A -> In i ready) /\
       let mine := filter key (select (c_msgs cd) A) in
       match eff c s exp with
       | Some e => map m_nonce mine = iota64 e (length mine) /\ eff c s exp' = Some (iter64 e (length mine))
@@ -574,6 +575,7 @@ Section ExecReportP.
       induction ms as [|m ms IH]; intros pre exp exp' ready Hm Hc.
       - cbn in Hc. inversion Hc; subst. cbn [adv_all]. cbn zeta.
         split; [constructor|]. split; [intros i []|]. split; [intros i []|]. split; [intros i []|].
+        split; [intros i []|].
         cbn. destruct (eff c s exp'); split; reflexivity.
       - cbn [check_all] in Hc. cbn [adv_all].
         destruct (check_message nonces exp cd (length pre) m) as [[exp1 rdy]| | |] eqn:E1; try discriminate.
@@ -584,7 +586,7 @@ Section ExecReportP.
         cbn [rbind fst snd] in Hc. inversion Hc; subst exp' ready; clear Hc.
         rewrite <- Hl in E2. specialize (IH _ _ _ _ Hm' E2). rewrite Hl in IH. cbn zeta in IH.
         set (A' := adv_all nonces exp1 cd (S (length pre)) ms) in *.
-        destruct IH as [I1 [I2 [I3 [I4 I5]]]].
+        destruct IH as [I1 [I2 [I3 [I4 [I6 I5]]]]].
         assert (Hnth : nth_error (c_msgs cd) (length pre) = Some m).
         { rewrite Hm, nth_error_app2 by lia. now rewrite Nat.sub_diag. }
         destruct (check_message_eff _ _ _ _ _ E1) as [C1 [C2 C3]].
@@ -597,6 +599,8 @@ Section ExecReportP.
             - destruct Hi as [<-|Hi]; [left; now left|]. destruct (I3 i Hi) as [H|H]; [left; now right|now right].
             - destruct (I3 i Hi) as [H|H]; [left; now right|now right]. }
           split; [intros i [<-|Hi]; [exists m; split; [exact Hnth|now apply C2]|now apply I4]|].
+          split.
+          { destruct (C2 eq_refl) as [_ ->]. intros i [<-|Hi]; [now left|right; now apply I6]. }
           rewrite (select_cons _ _ _ _ Hnth). cbn [filter].
           cbn [andb] in C3. destruct (key m) eqn:Ek.
           * destruct C3 as [e [Ee [En Ee1]]]. rewrite Ee. rewrite Ee1 in I5. destruct I5 as [J1 J2].
@@ -608,7 +612,9 @@ Section ExecReportP.
             - destruct Hi as [<-|Hi]; [|now apply I3].
               destruct (C1 eq_refl) as [H|H]; [right; exists m; auto|discriminate].
             - now apply I3. }
-          split; [exact I4|]. cbn [andb] in C3. rewrite <- C3. exact I5.
+          split; [exact I4|].
+          split; [intros i Hi; destruct rdy; [right|]; now apply I6|].
+          cbn [andb] in C3. rewrite <- C3. exact I5.
     Qed.
 
   End OneKey.
@@ -644,13 +650,14 @@ Section ExecReportP.
           -- intros i Hi. apply Hcov. now right.
   Qed.
 
-  (* Outside the F14 class — every message that advanced its sender's expected nonce is in the report — the sequenced
+  (* Outside what is left of the F14 class after repair F14a — the size / gas fallback drops no ready sequenced
+     message — the sequenced
      messages a chain report holds for a sender carry exactly the expectation in force before the Add and its
      successors, and the expectation in force afterwards is the next one; a sender without on-chain nonce gets
      nothing.  [rmsgs] are the messages of whatever this Add appended. *)
   Theorem add_nonce_order st cd st' cd' c s rmsgs :
     Add st cd = Ok (st', cd') ->
-    nonce_leak hash zero leaf_hash enc_size tree_gas nonces max_size max_gas st cd = false ->
+    fallback_drop hash zero leaf_hash enc_size tree_gas nonces max_size max_gas st cd = false ->
     (forall new, b_reports st' = b_reports st ++ new -> rmsgs = concat (map r_msgs new)) ->
     let mine := filter (key c s cd) rmsgs in
     match eff c s (b_exp st) with
@@ -658,12 +665,15 @@ Section ExecReportP.
     | None => mine = [] /\ eff c s (b_exp st') = None
     end.
   Proof.
-    intros Ha Hleak Hnew. unfold nonce_leak, included in Hleak. unfold add in Ha. unfold build_single in *.
+    intros Ha Hleak Hnew. unfold fallback_drop, included, ready_of in Hleak. unfold add in Ha. unfold build_single in *.
     destruct (CheckAll (b_exp st) cd 0 (c_msgs cd)) as [[exp1 ready]| | |] eqn:Ec; try discriminate.
     destruct (check_all_spec cd (c_msgs cd) [] _ _ _ eq_refl Ec) as [Hs Hr].
     pose proof (check_all_eff c s cd (c_msgs cd) [] _ _ _ eq_refl Ec) as He. cbn [length] in He. cbn zeta in He.
     set (A := adv_all nonces (b_exp st) cd 0 (c_msgs cd)) in *.
-    destruct He as [E1 [_ [E3 [E4 E5]]]].
+    destruct He as [E1 [_ [E3 [E4 [E6 E5]]]]].
+    assert (Hseq : forall i, In i A -> sequenced_at cd i = true).
+    { intros i Hi. destruct (E4 i Hi) as [m [Hm Hz]]. unfold sequenced_at. rewrite Hm.
+      destruct (N.eqb_spec (m_nonce m) 0); [contradiction|reflexivity]. }
     assert (Hnone : (forall i, In i A -> False) -> rmsgs = [] -> b_exp st' = exp1 ->
       match eff c s (b_exp st) with
       | Some e => map m_nonce (filter (key c s cd) rmsgs) = iota64 e (length (filter (key c s cd) rmsgs)) /\
@@ -675,9 +685,7 @@ Section ExecReportP.
     destruct ready as [|i0 ready'].
     - inversion Ha; subst st' cd'; clear Ha. cbn [b_exp b_reports] in *.
       apply Hnone; [|apply (Hnew []); now rewrite app_nil_r|reflexivity].
-      intros i Hi.
-      assert (existsb (fun i => negb (mem_nat i [])) A = true); [|congruence].
-      apply existsb_exists. exists i. split; [exact Hi|reflexivity].
+      intros i Hi. destruct (E6 i Hi).
     - set (ready := i0 :: ready') in *.
       set (st1 := mkB (b_size st) (b_gas st) exp1 (b_reports st)) in *.
       destruct (Choose st1 cd ready) as [[[[idxs r] meta]|]| | |] eqn:Ech; try discriminate.
@@ -691,16 +699,16 @@ Section ExecReportP.
         assert (Hsel : filter (key c s cd) rmsgs = filter (key c s cd) (select (c_msgs cd) A)).
         { rewrite Hrm, Hrr. cbn [r_msgs]. apply filter_select_eq; try assumption.
           - intros i Hi. apply mem_nat_In. destruct (mem_nat i idxs) eqn:Em; [reflexivity|].
-            assert (existsb (fun i => negb (mem_nat i idxs)) A = true); [|congruence].
-            apply existsb_exists. exists i. split; [exact Hi|now rewrite Em].
+            assert (existsb (fun i => sequenced_at cd i && negb (mem_nat i idxs)) ready = true); [|congruence].
+            apply existsb_exists. exists i. split; [now apply E6|]. now rewrite (Hseq i Hi), Em.
           - intros i Hi. destruct (E3 i (H3 i Hi)) as [H|[m [Hm Hz]]]; [now left|right].
             exists m. split; [exact Hm|]. unfold key. rewrite Hz. reflexivity. }
         cbn zeta. rewrite Hsel. exact E5.
       + inversion Ha; subst st' cd'; clear Ha. cbn [b_exp b_reports] in *.
         apply Hnone; [|apply (Hnew []); now rewrite app_nil_r|reflexivity].
         intros i Hi.
-        assert (existsb (fun i => negb (mem_nat i [])) A = true); [|congruence].
-        apply existsb_exists. exists i. split; [exact Hi|reflexivity].
+        assert (existsb (fun i => sequenced_at cd i && negb (mem_nat i [])) ready = true); [|congruence].
+        apply existsb_exists. exists i. split; [now apply E6|]. now rewrite (Hseq i Hi).
   Qed.
 
 End ExecReportP.
@@ -732,7 +740,8 @@ Fixpoint nonce_run_reports (nonces exp : nmap) (rs : list creport) : option nmap
                 end
   end.
 
-(* ---------- F14: the nonce-order clause is false of the code as it is ---------- *)
+(* ---------- F14: the nonce-order clause is false of the code as it is (fallback half) and was false in a second
+   way before repair F14a (costly half) ---------- *)
 Module F14.
   Definition h (a b : N) : N := (N.min a b * 1000 + N.max a b + 7)%N.
   Definition leaf (m : msg) : option N := Some (m_id m).
@@ -749,13 +758,16 @@ Module F14.
   (* (b) nobody is costly, but message 2 is too large for the remaining size budget *)
   Definition m2big := mkMsg 102 1 2 2 77 500 5.
   Definition cd_b := mkCD 1 root 1 3 [] [m1; m2big; m3] [] td.
-  Definition add_a := add h 999 leaf enc tg nonces 1000 1000 b_init cd_a.
+  Definition add_a := add_unfixed h 999 leaf enc tg nonces 1000 1000 b_init cd_a.
+  Definition add_a_fixed := add h 999 leaf enc tg nonces 1000 1000 b_init cd_a.
   Definition add_b := add h 999 leaf enc tg nonces 100 1000 b_init cd_b.
 End F14.
 
-Theorem nonce_order_refuted_costly :
+(* before repair F14a (costly test after the nonce check): a too-costly message advanced the expected nonce and its
+   successor was reported *)
+Theorem nonce_order_costly_unfixed_refuted :
   exists hash zero leaf enc tg nonces max_size max_gas cd st' cd' r,
-    add hash zero leaf enc tg nonces max_size max_gas b_init cd = Ok (st', cd') /\
+    add_unfixed hash zero leaf enc tg nonces max_size max_gas b_init cd = Ok (st', cd') /\
     build st' = [r] /\ map m_nonce (r_msgs r) = [1; 3]%N /\
     nlookup (c_src cd) 77 nonces = Some 0%N /\
     nonce_run_reports nonces [] (build st') = None.
@@ -764,6 +776,18 @@ Proof.
   destruct F14.add_a as [[st' cd']| | |] eqn:E; try (vm_compute in E; discriminate).
   exists st', cd'. vm_compute in E. inversion E; subst.
   eexists. split; [reflexivity|]. split; [reflexivity|]. split; [reflexivity|]. split; reflexivity.
+Qed.
+
+(* the same input on the repaired code: only nonce 1 is reported, nonce 3 waits for the costly nonce 2 *)
+Example nonce_order_costly_repaired :
+  exists st' cd' r,
+    F14.add_a_fixed = Ok (st', cd') /\ build st' = [r] /\ map m_nonce (r_msgs r) = [1]%N /\
+    nonce_run_reports F14.nonces [] (build st') = Some [((1, 77), 2)]%N /\
+    fallback_drop F14.h 999 F14.leaf F14.enc F14.tg F14.nonces 1000 1000 b_init F14.cd_a = false.
+Proof.
+  destruct F14.add_a_fixed as [[st' cd']| | |] eqn:E; try (vm_compute in E; discriminate).
+  exists st', cd'. vm_compute in E. inversion E; subst.
+  eexists. split; [reflexivity|]. split; [reflexivity|]. split; [reflexivity|]. split; vm_compute; reflexivity.
 Qed.
 
 Theorem nonce_order_refuted_fallback :
@@ -790,7 +814,7 @@ Example add_example :
   let cd := mkCD 1 F14.root 1 3 [] [F14.m1; F14.m2; F14.m3] [] F14.td in
   exists st' cd' r,
     add F14.h 999 F14.leaf F14.enc F14.tg F14.nonces 1000 1000 b_init cd = Ok (st', cd') /\
-    nonce_leak F14.h 999 F14.leaf F14.enc F14.tg F14.nonces 1000 1000 b_init cd = false /\
+    fallback_drop F14.h 999 F14.leaf F14.enc F14.tg F14.nonces 1000 1000 b_init cd = false /\
     b_reports st' = b_reports b_init ++ [r] /\ map m_nonce (r_msgs r) = [1; 2; 3]%N /\
     c_exec cd' = [1; 2; 3]%N /\ (b_size st', b_gas st') = (70, 18)%N /\
     budget_inv F14.enc F14.tg 1000 1000 st' /\
@@ -818,3 +842,8 @@ Proof.
   cbv zeta. split; [|vm_compute; reflexivity].
   intros t Ht. vm_compute in Ht. inversion Ht; subst. vm_compute. discriminate.
 Qed.
+
+(* the fallback witness lies inside the recorded class, the repaired costly input outside *)
+Example fallback_witness_in_class :
+  fallback_drop F14.h 999 F14.leaf F14.enc F14.tg F14.nonces 100 1000 b_init F14.cd_b = true.
+Proof. vm_compute. reflexivity. Qed.
